@@ -17,10 +17,13 @@ prop(
         "(1) Round trips: model values of the three file kinds (nil/max/random session ids, serials over 0..u64::MAX with boundaries, "
         "https/rsync URIs drawn from every octet the crate permits with & ' = ; over-represented, raw 32-byte hashes, object contents "
         "0..64 KiB incl. empty, 1-3 bytes, all byte values and lengths around 768/1024/3072/4096, 0..300 elements, delta elements "
-        "P/U/W in grouped and random orders; the first case of every shard is a document larger than the header limit) are built into "
+        "P/U/W in grouped and random orders; the first case of every shard is a document larger than the header limit, the second one "
+        "carries objects of 128 KiB..4 MiB (16 MiB in thorough) with lengths 2^k-1, 2^k, 2^k+1, 2^k+2, 3*2^(k-1)+{0,1,2}, different "
+        "lengths in every shard) are built into "
         "library values, written with write_xml and parsed back through NotificationFile::parse/parse_limited, Snapshot::parse, "
         "Delta::parse and through the harness' own ProcessSnapshot/ProcessDelta collectors with several read patterns (read_to_end, "
-        "1..n byte chunks, skip, partial) and reader chunkings; equality is checked field by field against the model including "
+        "1..n byte chunks, skip, partial, and a per-object seeded mix of read / read_vectored / take(k).read_to_end / bytes().take(k) "
+        "followed by read_to_end, io::copy or a chunk loop) and reader chunkings; equality is checked field by field against the model including "
         "element order and with ==. Case signature: (kind, element-count class, special characters present, data/size class, "
         "element kinds and transitions). "
         "(2) Never-ending hostile streams: valid prefix from an independent XML writer cut at every element position "
@@ -31,6 +34,12 @@ prop(
         "offending element + limit + capacity, limit = header limit (hook H2) for notification files and for the root of "
         "snapshot/delta files, file limit for what follows the root start tag; peak heap <= 4 x (limit + capacity) + 4 MiB. "
         "Quick runs every header-limit case once and six 100 MB file-limit cases; thorough every class at every position. "
+        "Two further families use the same bound: (2b) compound streams in which the offending element first spends 1/4 (thorough also "
+        "1/2 and 9/10) of its limit on something legal but large - white space or a comment in front of it, white space inside its start "
+        "tag, a very long URI or attribute, a long text before white space in the end tag - and only then never ends (11 classes over the "
+        "three file kinds and both limits), so that a budget that is started afresh inside one element reads first region + limit; "
+        "(2c) an endless element after a valid document that is itself longer than the file limit (1.01x, thorough also 2x; large "
+        "entries followed by thousands of ordinary ones), so that a bound that depends on what was read before is seen. "
         "Case signature: (kind, class, position class, limit kind). "
         "(3) sort_and_verify_deltas against the model (sort, keep newest `limit`, consecutive in u128) on 14 multiset classes "
         "(runs sorted/reversed/shuffled, gap, duplicate, duplicate u64::MAX, wrap-around, two runs, random, oversized list) x limits "
